@@ -1,6 +1,6 @@
 package main
 
-const c08Rule = "fault enumeration: seeded documents (1..3 conjunctions over a default, a pattern and a range field, incl. all-negative and empty conjunctions) x every expression position replaced by an unparseable value of that container's kind (default: bool / map / nested list / nil / lists with one unparseable element in last, first or middle position; pattern: integer / list with a non-string; range: non-numeric string, typed and untyped lists with one non-numeric element, ill-typed or reversed between pair, malformed description) x {include, exclude} x {skip, error, panic(recovered)} x {k-groups, compact}, followed by queries that would match the bad conjunction had it left a trace (empty assignment, an assignment hitting its includes and avoiding its excludes) and by ordinary queries; plus documents rejected outright (no conjunction, 256 conjunctions, id out of range). Posting-list contents are compared through the hook. Non-trivial = the faulty document has another conjunction or a neighbour that some query matches; distinct = distinct input"
+const c08Rule = "fault enumeration: seeded documents (1..3 conjunctions over a default, a pattern and a range field, incl. all-negative and empty conjunctions) x every expression position replaced by an unparseable value of that container's kind (default: bool / map / nested list / nil / lists with one unparseable element in last, first or middle position; pattern: integer / list with a non-string; range: non-numeric string, typed and untyped lists with one non-numeric element, ill-typed or reversed between pair, malformed description, unknown operator) x {include, exclude} x {skip, error, panic(recovered)} x {k-groups, compact}, followed by queries that would match the bad conjunction had it left a trace (empty assignment, an assignment hitting its includes and avoiding its excludes) and by ordinary queries; plus documents rejected outright (no conjunction, 256 conjunctions, id out of range). Posting-list contents are compared through the hook. Non-trivial = the faulty document has another conjunction or a neighbour that some query matches; distinct = distinct input"
 
 func badValues(cont string) []TV {
 	switch cont {
@@ -93,7 +93,9 @@ func init() {
 								}
 								bads := badValues(conts[f])
 								bad := eExpr{F: f, Inc: inc, V: bads[r.Intn(len(bads))]}
-								if conts[f] == "ext_range" && r.Bool() {
+								if conts[f] == "ext_range" && r.Chance(15) { // an operator the container does not know, on a value `in` would accept
+									bad = eExpr{F: 2, Inc: inc, Op: 4, V: pick(r, []TV{tvInt("int", 3), tvSlice("[]int", tvInt("int", 3), tvInt("int", 15))})}
+								} else if conts[f] == "ext_range" && r.Bool() {
 									bad = eExpr{F: 2, Inc: inc, Op: 3, V: pick(r, []TV{tvSlice("[]int64", tvInt("int64", 9), tvInt("int64", 5)), tvSlice("[]int64", tvInt("int64", 1)), tvStr("9:5"), tvInt("int", 3), tvStr("1:5:0")})}
 								}
 								for _, pol := range []string{"skip", "error", "panic"} {
